@@ -242,6 +242,19 @@ PROPS = {
         assumptions=[],
         open=["C11_full for the implementation (every reaching state, no panic) is false on the pinned tree (D16); C11_once_partial is what the correspondence checks"],
     ),
+    "C23": dict(
+        title="no panic on well-formed programs",
+        props_module="PvModel.Props.C23",
+        rule="WELL-FORMED stream: per index one program from each generator (tree constraints with compounds, search with committed choice / dfs / "
+             "infinite producers on bounded prefixes, FD incl. structured query terms and hidden variables, CLP(Z), library relations in random "
+             "modes, project reached once / twice), goal construction and solving under catch_unwind; oracle: no panic (project-twice = known "
+             "finding D16 by call site); MALFORMED stream: operands of undocumented kinds, FD operands without a domain, non-number constants "
+             "in distinctfd — no oracle claim, the model must predict the panic SITE; observable: answers or `PANIC <site>`; non-trivial = every "
+             "case; distinct = distinct case lines",
+        trusted=SEARCH_TRUST + ["panic sites are compared as a small enum derived from the panic message; isize overflow is outside the property (well-formedness clause) and not modelled"],
+        assumptions=[],
+        open=["C23_no_panic for the whole model (every fragment at once, through the re-entrant FD loop) is not proved; the fragment theorems are listed; the rest is carried by the correspondence on every generator"],
+    ),
     "C01": dict(
         title="unification (State::unify vs unifyF)",
         props_module="PvModel.Props.C01",
